@@ -532,6 +532,12 @@ func (x *Exec) inLangRI(ri *RegexInfo, view StrVal) *Term {
 		panic(execErr{fmt.Sprintf("regexp %s is not anchored with ^...$ (outside the modelled subset)", ri.Name)})
 	}
 	if ri.MaxLen != inf && ri.MaxLen <= 64 {
+		if ri.SkelOK {
+			// few decompositions: the match is the disjunction over them (all positions constant per disjunct)
+			if f, ok := x.skeletonEnum(ri, view, "", nil, nil, false); ok {
+				return f
+			}
+		}
 		get := func(i int) *Term { return o.SelByte(view.Arr, o.IdxAdd(view.Off, o.Idx(int64(i)))) }
 		return o.And(o.IdxLe(view.Len, o.Idx(int64(ri.MaxLen))), x.nfaMatch(ri.Prog, get, view.Len, ri.MaxLen, o.True(), o.True()))
 	}
@@ -551,7 +557,7 @@ func (x *Exec) skeletonFacts(ri *RegexInfo, view StrVal, tag string) (*Term, []*
 	o := x.o
 	starts := make([]*Term, ri.NumCap+1)
 	lens := make([]*Term, ri.NumCap+1)
-	if f, ok := x.skeletonEnum(ri, view, tag, starts, lens); ok {
+	if f, ok := x.skeletonEnum(ri, view, tag, starts, lens, true); ok {
 		return f, starts, lens
 	}
 	var facts []*Term
@@ -661,7 +667,7 @@ func schemaRegexpMatch(x *Exec, st *State, fn *ssa.Function, args []Val, c *ssa.
 
 // skeletonEnum: for patterns whose pieces all have bounded length and few length combinations, the skeleton is
 // stated as a disjunction over the concrete decompositions (all positions constant in each disjunct).
-func (x *Exec) skeletonEnum(ri *RegexInfo, view StrVal, tag string, starts, lens []*Term) (*Term, bool) {
+func (x *Exec) skeletonEnum(ri *RegexInfo, view StrVal, tag string, starts, lens []*Term, withVars bool) (*Term, bool) {
 	o := x.o
 	type piece struct {
 		it     skelItem
@@ -691,6 +697,9 @@ func (x *Exec) skeletonEnum(ri *RegexInfo, view StrVal, tag string, starts, lens
 		}
 	}
 	for i, p := range ps {
+		if !withVars {
+			break
+		}
 		p.lv = o.Fresh(fmt.Sprintf("%s.len%d", tag, i+1), o.IdxSort())
 		x.assumeLen(p.lv)
 		if !o.M.BV {
@@ -722,10 +731,17 @@ func (x *Exec) skeletonEnum(ri *RegexInfo, view StrVal, tag string, starts, lens
 			if m.IsFalse() {
 				continue
 			}
-			rec(i+1, pos+l, append(acc, o.Eq(p.lv, o.Idx(int64(l))), m))
+			if withVars {
+				rec(i+1, pos+l, append(acc, o.Eq(p.lv, o.Idx(int64(l))), m))
+			} else {
+				rec(i+1, pos+l, append(acc, m))
+			}
 		}
 	}
 	rec(0, 0, nil)
+	if !withVars {
+		return o.Or(disj...), true
+	}
 	// capture starts: sums of the preceding piece lengths
 	pos := o.Idx(0)
 	for _, p := range ps {
